@@ -764,7 +764,7 @@ def run(rep):
                    "limit maps; streams per capability = min(local, peer); verify implies ids fit 13 bits; routing of the dispatcher and Protocol error for foreign ids / unassigned kind; "
                    "FIFO use of the transport; flow control (held payload <= read_buffer_size, held frames <= read_frame_count, frames <= read_frame_size) against every byte sequence and every "
                    "consumption order, on an LTS built from the model's own dispatcher step function; read_exact is order/loss/duplication free and reports EOS only after CLOSE; frames after a "
-                   "CLOSE are invisible to the current incarnation; write_all framing. NOT proved: the composition of these component theorems through the scheduler [settle] for all scripts "
+                   "CLOSE are invisible to the current incarnation; write_all framing; inside an endpoint a delivered frame and any step of one reusable stream leave every other stream's state untouched. NOT proved: the composition of these component theorems through the scheduler [settle] for all scripts "
                    "(C14_full in Properties/C14.v: end-to-end byte conservation between paired slots, the refinement of the endpoint's stream state machines onto the flow-control LTS, "
                    "at-most-one transient stream per reusable stream); that part rests on the differential correspondence and the predicates. Head-of-line blocking is documented behaviour, "
                    "not claimed absent. write_frame_size = 0 (write_all spins) and read_frame_size = 0 (dispatcher spins on the first DATA frame) are accepted by Config::verify and excluded "
